@@ -390,7 +390,7 @@ class sptenmat:
         >>> ST1.nnz
         1
         """
-        return len(self.vals)
+        return int(self.vals.size)
 
     def norm(self) -> float:
         """Compute the norm of the :class:`pyttb.sptenmat`.
